@@ -224,6 +224,47 @@ def r3_r5_relations(run, F):
                sample={"rows": got[:6]})
 
 
+def r5c_equals_structural(run, F):
+    """`equals` decides whether the element types of a documented coercion ([N]T -> []T, -> &[]T, -> (T..)) are the same type.
+    It must compare *every* part of a composite type: for each variant handled by a nested `match other`, the same-variant arm
+    binds every field of the variant on both sides and its result reads every one of those bindings; any other inner arm is
+    `false`; arms without a nested match are `self == other` (derived equality).  Names of the bindings are free."""
+    b = F.body("alpha::value_type::ValueType::equals")
+    vt = F.lib.adts["alpha::value_type::ValueType"]
+    fields_of = {v["name"]: [f["name"] for f in v.get("fields", [])] for v in vt["variants"]}
+    m = hirq.find_match(b, min_arms=5)
+    n = 0
+    for a in m["arms"]:
+        body = hirq.unwrap_trivial(a["body"])
+        for alt in hirq.pat_alts(a["pat"]):
+            if hirq.is_catchall(alt):
+                continue
+            v = hirq.pat_key(alt).split("::")[-1]
+            n += 1
+            if body.get("k") != "Match":
+                ok = body.get("k") == "Binary" and body.get("op") == "Eq" and {hirq.local_name_of(body["lhs"]), hirq.local_name_of(body["rhs"])} == {"self", "other"}
+                run.ob("R5-EQUALS-STRUCTURAL", v, ok, F.where(b, a), "%s: without a field-by-field comparison the arm must be `self == other`" % v)
+                continue
+            outer, orest = hirq.field_pats(alt)
+            same = [ia for ia in body["arms"] for ialt in hirq.pat_alts(ia["pat"]) if hirq.pat_key(ialt).split("::")[-1] == v]
+            if len(same) != 1 or outer is None:
+                run.ob("R5-EQUALS-STRUCTURAL", v, False, F.where(b, a), "%s: no single same-variant arm in the nested match" % v)
+                continue
+            inner, irest = hirq.field_pats(same[0]["pat"])
+            want = set(fields_of.get(v, []))
+            ob = {f: hirq.pat_bindings(p) for f, p in (outer or {}).items()}
+            ib = {f: hirq.pat_bindings(p) for f, p in (inner or {}).items()}
+            bound_o = set(f for f, bs in ob.items() if bs)
+            bound_i = set(f for f, bs in ib.items() if bs)
+            used = all(hirq.uses_local(same[0]["body"], lid) for f in want for _, lid, _ in ob.get(f, []) + ib.get(f, []))
+            others_false = all(hirq.unwrap_trivial(ia["body"]).get("v") is False for ia in body["arms"] if ia is not same[0])
+            run.ob("R5-EQUALS-STRUCTURAL", v, bound_o == want and bound_i == want and used and others_false, F.where(b, a),
+                   "%s: fields %s; bound on the left %s, on the right %s; every binding read by the result: %s; other arms false: %s "
+                   "(a part that is not compared makes two different types interchangeable in the array-to-slice/view coercions)" % (
+                       v, sorted(want), sorted(bound_o), sorted(bound_i), used, others_false))
+    run.floor("R5-EQUALS-STRUCTURAL", 10, "variants handled by equals")
+
+
 def r5b_unification_leaves(run, F):
     """Unification compares leaf types for identity: is_like and can_be_concretization_of (used by do_update_symbol for every
     declaration, assignment and argument) may only recurse into themselves and use `==`.  The alias-aware `equals`
@@ -453,6 +494,7 @@ def check(run):
     r2_wiring(run, F)
     r3_r5_relations(run, F)
     r5b_unification_leaves(run, F)
+    r5c_equals_structural(run, F)
     r4_calls(run, F)
     r5_unification(run, F)
     r6_codes(run, F)
